@@ -1,6 +1,6 @@
 CONSTANTS
   Grids <- ThoroughGrids
-  Modes = {"ok", "norefresh", "failvalid"}
+  Modes = {"ok", "norefresh", "failvalid", "form"}
   Stores = {"cookie", "redis"}
   MaxReqs = 3
   ExpireCheck = TRUE
